@@ -14,7 +14,7 @@
 #include "shim.h"
 
 #define MAXTOK 256
-#define MAXDIMS 16
+#define MAXDIMS 40
 #define SENT 0xA5
 
 static int g_rank, g_np;
